@@ -34,7 +34,7 @@ def main():
     ]
     if c.setup():
         for label, kw in configs(c.tier):
-            c.run(label, 'rsym.hr', 'FieldOrder', kw, time_cap=200 if c.tier == 'quick' else 3000)
+            c.run(label, 'rsym.hr', 'FieldOrder', kw, time_cap=200 if c.tier == 'quick' else 900)
     c.finish(bounds={'skeletons': [l for l, _ in configs(c.tier)]}, outside=['documents outside the skeletons', 'names outside the pool'],
              trusted=['rsym + models', 'z3', 'output reader (checks/outreader)', 'tools/replay'],
              technique='symbolic execution of parser + renderer under both sort options; first-appearance order oracle as z3 formula, decided per path')
